@@ -14,7 +14,7 @@ import numpy as np
 
 from . import programs as P
 
-TEMPLATES = ("H1", "H2", "H3", "H4", "H5", "H6", "H7", "H8")
+TEMPLATES = ("H1", "H2", "H3", "H4", "H5", "H6", "H7", "H8", "H9")
 # parameters of each template: list of (name, shape spec) ; shape spec "x" = shape of the feature used
 PARAMS = {
     "H1": [("t", "x")],
@@ -25,6 +25,7 @@ PARAMS = {
     "H6": [("t", "x"), ("U", "pool")],
     "H7": [("t", "x")],
     "H8": [("t0", ())],
+    "H9": [("t", "x")],  # a loss that ignores the features altogether (regulariser-like): its Jacobian row is zero
 }
 
 
@@ -92,6 +93,8 @@ class MtlRef:
         elif tpl == "H8":
             t0 = float(p["t0"])
             L, dF[f], dp = x.sum() * t0 * t0, np.full_like(x, t0 * t0), {"t0": np.asarray(2 * t0 * x.sum())}
+        elif tpl == "H9":
+            L, dp = (p["t"] * p["t"]).sum(), {"t": 2 * p["t"]}
         else:
             raise KeyError(tpl)
         return float(L), dF, dp
@@ -144,6 +147,8 @@ def build_torch(desc, seed=0, dtype="float64"):
             L = (x * p["t"]).sum() + (vals[ref.around_leaf] * 3.0).sum()
         elif tpl == "H8":
             L = x.sum() * p["t0"] * p["t0"]
+        elif tpl == "H9":
+            L = (p["t"] * p["t"]).sum()
         losses.append(L)
         tparams.append([p[n] for n, _ in PARAMS[tpl]])
         tnames.append([n for n, _ in PARAMS[tpl]])
